@@ -33,6 +33,10 @@ class _Return(Exception):
         self.value = value
 
 
+class _Continue(Exception):
+    pass
+
+
 class Interp:
     def __init__(self, repo="/repo"):
         self.repo = repo
@@ -143,6 +147,9 @@ class Interp:
 
     def st_Pass(self, st, scope, ms):
         pass
+
+    def st_Continue(self, st, scope, ms):
+        raise _Continue()
 
     def st_Import(self, st, scope, ms):
         for al in st.names:
@@ -508,6 +515,10 @@ class Interp:
             # not for free inputs such as a penalty factor, a step size or a viscosity, which may be zero or negative: a branch of
             # the analysed code on such an input is not decided by that convention
             from .extlib import ExtLib
+            if getattr(self, "elem_bounds", None) is not None:
+                d = self.decide_with_bounds(v)
+                if d is not None:
+                    return d
             structural = {"dx", "x_range", "eps", "pi", "nx", "ny", "nz", "h", "blend_width"}
             inputs = [a for a in v.p.atoms() if a[0] == "s" and a[1] not in structural and a[1] not in ExtLib.INT_SYMBOLS and not a[1].startswith("@")]
             if not inputs or v.p.is_const():
@@ -588,6 +599,38 @@ class Interp:
             return None
         return name
 
+    def decide_with_bounds(self, c):
+        """a comparison that is affine in ONE input element with declared bounds lo <= e <= hi (the admissible domain of the
+        property, set by the check): decided when the bounds decide it, else None"""
+        from .poly import Poly, as_poly
+        hits = [(a, self.elem_bounds(a[1])) for a in c.p.atoms() if a[0] == "s"]
+        hits = [(a, b) for a, b in hits if b is not None]
+        if len(hits) != 1:
+            return None
+        atom, (lo, hi) = hits[0]
+        k = c.p.coeff(atom, 1)
+        rest = c.p - k * Poly.atom(atom)
+        if not k.is_const() or atom in rest.atoms():
+            return None
+        kv = k.const_value()
+        ends = []
+        for b in (lo, hi):
+            if isinstance(b, PW):
+                b = b.leaf if b.is_leaf() else None
+            q = None if b is None else rest + as_poly(b).scale(kv)
+            ends.append(q.const_value() if q is not None and q.is_const() else None)
+        pmin, pmax = (ends[0], ends[1]) if kv > 0 else (ends[1], ends[0])
+        op = c.op
+        if op == ">":
+            return True if pmin is not None and pmin > 0 else (False if pmax is not None and pmax <= 0 else None)
+        if op == ">=":
+            return True if pmin is not None and pmin >= 0 else (False if pmax is not None and pmax < 0 else None)
+        if op == "<":
+            return True if pmax is not None and pmax < 0 else (False if pmin is not None and pmin >= 0 else None)
+        if op == "<=":
+            return True if pmax is not None and pmax <= 0 else (False if pmin is not None and pmin > 0 else None)
+        return None
+
     def decide_cond(self, c):
         from .signs import sign_of_poly
         s = sign_of_poly(c.p)
@@ -611,14 +654,20 @@ class Interp:
             self.trace.append(Op("LoopBegin", var=var, range=it.info, where=self.where(st, ms), stack=tuple(self.call_stack),
                                  iterator=ast.unparse(st.iter.func) if isinstance(st.iter, ast.Call) else ast.unparse(st.iter)))
             scope.vars[st.target.id] = psym(var)
-            self.exec_block(st.body, scope, ms)
+            try:
+                self.exec_block(st.body, scope, ms)
+            except _Continue:
+                pass            # the generic iteration ends early: what it did so far is its whole effect
             self.trace.append(Op("LoopEnd", var=var, where=self.where(st, ms)))
             return
         else:
             raise Unsupported("for over %r at %s" % (it, self.where(st, ms)))
         for x in seq:
             self.assign(st.target, x, scope, ms, st)
-            self.exec_block(st.body, scope, ms)
+            try:
+                self.exec_block(st.body, scope, ms)
+            except _Continue:
+                continue
         if st.orelse:
             self.exec_block(st.orelse, scope, ms)
 
@@ -1140,8 +1189,13 @@ class Interp:
             return {"Lt": a < b, "LtE": a <= b, "Gt": a > b, "GtE": a >= b}[name]
         if is_scalar(a) and is_scalar(b):
             d = to_pw(a) - to_pw(b)
-            if not d.is_leaf():
-                raise Unsupported("comparison of piecewise values")
+            guard = 0
+            while not d.is_leaf():
+                # a piecewise operand (min / max of inputs): its own condition is decided first, like a branch of the code
+                guard += 1
+                if guard > 8:
+                    raise Unsupported("comparison of piecewise values")
+                d = d.a if self.truth(d.cond, e, ms) else d.b
             opn = {"Lt": "<", "LtE": "<=", "Gt": ">", "GtE": ">="}[name]
             # a comparison whose every term carries a free input (penalty factor, step size, viscosity ...): the Cond normal form
             # would divide by those symbols as if they were positive; the sign of such an input is not known, so the outcome is
